@@ -93,7 +93,9 @@ async function read_case_inner(c) {
         it = new rbql_csv.CSVRecordIterator(fs.createReadStream(tmp), null, c.encoding, c.dlm, c.policy, !!c.has_header, c.comment_prefix || null);
     } else {
         pieces = c.pieces.map(h => Buffer.from(h, 'hex'));
-        it = new rbql_csv.CSVRecordIterator(new PieceStream(pieces), null, c.encoding, c.dlm, c.policy, !!c.has_header, c.comment_prefix || null);
+        let ps = new PieceStream(pieces);
+        if (c.text_stream) ps.setEncoding('latin1');      // a text stream: the same pieces arrive as strings (one latin-1 character per byte)
+        it = new rbql_csv.CSVRecordIterator(ps, null, c.encoding, c.dlm, c.policy, !!c.has_header, c.comment_prefix || null);
     }
     let out = {};
     try {
@@ -270,7 +272,23 @@ async function lasso_case(c) {
         constructor(it) { super(); this.rows = []; this.pulls_at_write = []; this.it = it; }
         async write(fields) { this.rows.push(fields); this.pulls_at_write.push(this.it.pulls); return true; }
     }
-    let it = new Lasso(c.table, c.horizon);
+    // a user's own iterator class: only the two methods every RBQLInputIterator must implement (get_variables_map, get_record)
+    class PlainLasso extends rbql.RBQLInputIterator {
+        constructor(table, horizon) { super(); this.table = table; this.pulls = 0; this.horizon = horizon; }
+        async get_variables_map(query_text) {
+            let m = new Object();
+            rbql.parse_basic_variables(query_text, 'a', m);
+            rbql.parse_array_variables(query_text, 'a', m);
+            return m;
+        }
+        async get_record() {
+            if (this.pulls >= this.horizon) throw new Horizon('horizon');
+            let rec = this.table[this.pulls % this.table.length];
+            this.pulls += 1;
+            return rec;
+        }
+    }
+    let it = c.plain ? new PlainLasso(c.table, c.horizon) : new Lasso(c.table, c.horizon);
     let w = new Rec(it);
     try {
         await rbql.query(c.query, it, w, []);
